@@ -224,6 +224,8 @@ func checkC15(p *core.Program, r *core.Report) {
 	r.Rule("R2", "boolean structure: evaluateBoolCombination over all 2-child truth vectors is conjunction for AND and disjunction for OR; evaluateCondition over all value vectors of length 0..2 gives any() for =-like operators, all() for !=, `!=` is the negation of `=` (per-value results negated), and the empty-value forms test absence/presence")
 	r.Rule("R3", "no failing assertion: the Go type asserted by evaluateConditionWithValue for each value type agrees with the static types Contact.QueryProperty / FieldValue.QueryValue put into []any for every attribute of that type, every URN and every field type")
 	r.Rule("R4", "the validator admits only what the evaluator handles: over operator x value type, every combination Condition.validate can accept reaches a non-panicking arm of the comparison function evaluateConditionWithValue dispatches to")
+	r.Rule("R6", "the attribute table is consulted for attributes only: in contactql every lookup in the package-level attribute type table is control-dependent on a test of the condition's property type (a switch arm or an == on propType); otherwise a field whose key happens to be an attribute's name (fields.id, fields.status) gets the attribute's type, the validator admits text operators on it and the evaluator's type assertion on the field's number or date panics")
+	c15R6(p, r)
 	r.Rule("R5", "node switches over QueryNode in the evaluator and in Simplify cover both node types; Simplify flattens only children with the same operator and keeps their order")
 	r.Assumption("decimal and time comparison primitives are a total order; date parsing of query values and text tokenisation are not decided")
 
@@ -1094,6 +1096,88 @@ func c15R3R4(p *core.Program, r *core.Report, evalCWV, numCmp, dateCmp, textCmp 
 		}
 	}
 	r.Require("validator_cells", nCells, 40)
+}
+
+// c15R6: lookups in the attribute type table happen under a property-type test.
+func c15R6(p *core.Program, r *core.Report) {
+	// the value of the constant PropertyTypeAttribute
+	attrConst := ""
+	if pk := p.Pkg("contactql"); pk != nil {
+		if c, ok := pk.Types.Scope().Lookup("PropertyTypeAttribute").(*types.Const); ok {
+			attrConst = constant.StringVal(c.Val())
+		}
+	}
+	if attrConst == "" {
+		r.Errorf("contactql.PropertyTypeAttribute not found")
+		return
+	}
+	n := 0
+	per := map[string]int{}
+	for _, fn := range p.ModuleFunctions() {
+		if core.RelPkg(core.FuncPkgPath(fn)) != "contactql" || p.IsTestFile(fn.Pos()) || fn.Synthetic != "" {
+			continue
+		}
+		core.EachInstr(fn, false, func(_ *ssa.Function, in ssa.Instruction) {
+			lk, ok := in.(*ssa.Lookup)
+			if !ok {
+				return
+			}
+			g := loadedGlobal(lk.X)
+			if g == nil || g.Name() != "attributes" {
+				return
+			}
+			if lk.CommaOk {
+				// a pure membership test (only the ok is used) is how the property type is found in the first place
+				valueUsed := false
+				for _, ref := range *lk.Referrers() {
+					if ex, ok := ref.(*ssa.Extract); ok && ex.Index == 0 && ex.Referrers() != nil && len(*ex.Referrers()) > 0 {
+						valueUsed = true
+					}
+				}
+				if !valueUsed {
+					return
+				}
+			}
+			n++
+			k := core.FuncName(fn)
+			per[k]++
+			key := k + "/attribute-table-lookup"
+			if per[k] > 1 {
+				key = fmt.Sprintf("%s#%d", key, per[k])
+			}
+			guarded := false
+			for _, ce := range core.ControllingConds(lk.Block()) {
+				bo, ok := ce.Cond.(*ssa.BinOp)
+				if !ok || (bo.Op != token.EQL && bo.Op != token.NEQ) || (bo.Op == token.EQL) != ce.Taken {
+					continue // only the edge on which the property type EQUALS something
+				}
+				isAttrConst, isPropType := false, false
+				for _, o := range []ssa.Value{bo.X, bo.Y} {
+					if c, ok := o.(*ssa.Const); ok && strings.HasSuffix(c.Type().String(), "PropertyType") {
+						if sv, isS := core.ConstString(c); isS && sv == attrConst {
+							isAttrConst = true
+						}
+					}
+					for v := range core.BackSlice(o, nil) {
+						if u, ok := v.(*ssa.UnOp); ok {
+							if fv := core.FieldAddrVar(u.X); fv != nil && fv.Name() == "propType" {
+								isPropType = true
+							}
+						}
+						if prm, ok := v.(*ssa.Parameter); ok && strings.HasSuffix(prm.Type().String(), "PropertyType") {
+							isPropType = true
+						}
+					}
+				}
+				if isAttrConst && isPropType {
+					guarded = true
+				}
+			}
+			r.Check(guarded, "R6", key+"/under-property-type-test", p.Pos(lk.Pos()), "controlled by a test of the property type", "the attribute type table is consulted for any key, not only when the property is an attribute: a field keyed like an attribute gets the attribute's type")
+		})
+	}
+	r.Count("attribute_table_lookups", n)
+	r.Require("attribute_table_lookups", n, 1)
 }
 
 func c15R5(p *core.Program, r *core.Report, evalNode *ssa.Function) {
